@@ -224,7 +224,8 @@ class NonSeekableDest:
                     # was full
                     k = 1 + f.get('partial', 0) % (len(data) - 1)
                     exc.characters_written = k
-                    self.chunks.append((w.sim.stamp(), w.sim.current.tid, bytes(data[:k])))
+                    self.chunks.append((w.sim.stamp(), w.sim.current.tid, bytes(data[:k]),
+                                        'partial'))
                     w.on_dest_write(self.tidx, None, k)
                 raise exc
             self.chunks.append((w.sim.stamp(), w.sim.current.tid, bytes(data)))
